@@ -17,10 +17,8 @@ cp $mut/demo_test.go $wt/$demodir/zz_demo_test.go
 echo "== demo without patch (expect ok)"; (cd $wt/$demodir && go test -vet=off -count=1 -run 'Demo' . 2>&1 | tail -n 3)
 rm -f $wt/$demodir/zz_demo_test.go
 git apply $mut/patch.diff
-echo "== checks against /repo with the patch"
-cd /repo && git apply $mut/patch.diff || { echo "patch does not apply to /repo"; exit 2; }
+echo "== checks against the patched worktree (VERIF_REPO=$wt; /repo untouched)"
 for c in "$@"; do
-  out=$(cd /verif && VERIF_SHRINK_RUNS=60 ./check $c 2>&1); rc=$?
+  out=$(cd /verif && VERIF_REPO=$wt VERIF_SHRINK_RUNS=60 ./check $c 2>&1); rc=$?
   echo "-- $c exit=$rc"; echo "$out" | grep -A2 "^VIOLATION" | grep "clause=" | head -4 | cut -c1-200; echo "$out" | tail -n 1 | cut -c1-160
 done
-git -C /repo checkout -- . ; git -C /repo status --short | grep -v "ch-dl/dl" | head -3
